@@ -5,12 +5,14 @@ package kernel
 // consensus views (written from the rules, not from the implementation).
 
 import (
+	"crypto/ed25519"
 	"fmt"
 	"math/rand"
 	"sort"
 	"testing"
 	"time"
 
+	"filippo.io/edwards25519"
 	"github.com/MixinNetwork/mixin/common"
 	"github.com/MixinNetwork/mixin/config"
 	"github.com/MixinNetwork/mixin/crypto"
@@ -80,8 +82,28 @@ func (h *verifHistory) sortRecords() {
 // the hours the protocol allows, sometimes at arbitrary times.
 func verifRandomHistory(label string, rng *rand.Rand, genesis, days int) *verifHistory {
 	epoch := uint64(1_600_000_000+rng.Intn(1000)*86400) * uint64(time.Second)
+	return verifRandomHistoryOn(label, rng, genesis, days, epoch, crypto.Blake3Hash([]byte("verif-net:"+label)))
+}
+
+func verifMainnetId() crypto.Hash {
+	id, err := crypto.HashFromString(config.KernelNetworkId)
+	if err != nil {
+		panic(err)
+	}
+	return id
+}
+
+// verifLegacyHistory is a random history on the main network id whose days straddle the activation of the
+// predictive removal signer set: before it the kernel verifies certificates with the legacy rule (the key set
+// from before the operation window is tried as well).
+func verifLegacyHistory(label string, rng *rand.Rand, genesis, days int) *verifHistory {
+	epoch := mainnetConsensusNodeRemovalSignerSetForkAt - uint64(1+rng.Intn(days))*OneDay - uint64(rng.Intn(24))*uint64(time.Hour)
+	return verifRandomHistoryOn(label, rng, genesis, days, epoch, verifMainnetId())
+}
+
+func verifRandomHistoryOn(label string, rng *rand.Rand, genesis, days int, epoch uint64, networkId crypto.Hash) *verifHistory {
 	h := &verifHistory{Label: label, Epoch: epoch, Genesis: map[crypto.Hash]bool{}}
-	h.NetworkId = crypto.Blake3Hash([]byte("verif-net:" + label))
+	h.NetworkId = networkId
 	for i := 0; i < genesis; i++ {
 		m := h.member(i)
 		h.Genesis[m.Id] = true
@@ -236,10 +258,29 @@ func (h *verifHistory) refList(q uint64) []*verifRefNode {
 
 func (h *verifHistory) hourOf(ts uint64) int { return int((ts - h.Epoch) / uint64(time.Hour) % 24) }
 
+// predictive: the removal of a node is anticipated in the signer set of its operation window (always, except
+// on the main network before the activation time).
+func (h *verifHistory) predictive(ts uint64) bool {
+	return h.NetworkId.String() != config.KernelNetworkId || ts >= mainnetConsensusNodeRemovalSignerSetForkAt
+}
+
+// refLegacyTs: under the legacy rule a certificate inside the operation window may also be one of the membership
+// as it was before the window; this is the instant of that membership.
+func (h *verifHistory) refLegacyTs(ts uint64) (uint64, bool) {
+	if ts < h.Epoch || h.predictive(ts) {
+		return 0, false
+	}
+	hr := h.hourOf(ts)
+	if hr < 13 || hr > 19 {
+		return 0, false
+	}
+	return ts - uint64(hr+1-13)*uint64(time.Hour), true
+}
+
 // refRemoving: the node whose removal is predictable in the operation window
 // (13..19 h of the epoch day) containing ts, judged at the window start.
 func (h *verifHistory) refRemoving(ts uint64) *verifRefNode {
-	if ts < h.Epoch {
+	if ts < h.Epoch || !h.predictive(ts) {
 		return nil
 	}
 	if hr := h.hourOf(ts); hr < 13 || hr > 19 {
@@ -353,3 +394,73 @@ func (h *verifHistory) boundaries(rng *rand.Rand, extra int) []uint64 {
 	}
 	return out
 }
+
+// vC09Cosi signs hash with the members at the given positions of the key vector.
+func vC09Cosi(h *verifHistory, hash crypto.Hash, cids []crypto.Hash, publics []*crypto.Key, positions []int) (*crypto.CosiSignature, error) {
+	nonces := map[int]*crypto.CosiNonce{}
+	commitments := map[int]*crypto.Key{}
+	for _, i := range positions {
+		n := crypto.CosiCommitNonce(crypto.RandReader())
+		c := n.Public()
+		nonces[i], commitments[i] = n, &c
+	}
+	sig, err := crypto.CosiAggregateCommitment(commitments)
+	if err != nil {
+		return nil, err
+	}
+	responses := map[int]*[32]byte{}
+	for _, i := range positions {
+		priv := h.privOf(cids[i])
+		if priv == nil {
+			return nil, fmt.Errorf("no private key for %s", cids[i])
+		}
+		resp, err := nonces[i].Response(sig, priv, publics, hash)
+		if err != nil {
+			return nil, err
+		}
+		responses[i] = resp
+	}
+	if err := sig.AggregateResponse(publics, responses, hash, true); err != nil {
+		return nil, err
+	}
+	return sig, nil
+}
+
+// vC09StdVerify verifies sig over msg under the plain sum of keys with the
+// standard library's Ed25519 (independent of the repository's crypto package).
+func vC09StdVerify(keys []crypto.Key, msg crypto.Hash, sig crypto.Signature) bool {
+	if len(keys) == 0 {
+		return false
+	}
+	sum := edwards25519.NewIdentityPoint()
+	for _, k := range keys {
+		p, err := edwards25519.NewIdentityPoint().SetBytes(k[:])
+		if err != nil {
+			return false
+		}
+		sum.Add(sum, p)
+	}
+	return ed25519.Verify(ed25519.PublicKey(sum.Bytes()), msg[:], sig[:])
+}
+
+
+// vC09LegacyTimes: instants after a removal inside its operation window while the legacy rule applies (the
+// certificate may then come from the membership before the window).
+func vC09LegacyTimes(h *verifHistory, rng *rand.Rand) []uint64 {
+	var out []uint64
+	for _, rec := range h.Records {
+		if rec.State != common.NodeStateRemoved {
+			continue
+		}
+		if _, ok := h.refLegacyTs(rec.Timestamp + 1); !ok {
+			continue
+		}
+		end := h.Epoch + (rec.Timestamp-h.Epoch)/OneDay*OneDay + 20*uint64(time.Hour)
+		out = append(out, rec.Timestamp+1)
+		if end > rec.Timestamp+2 {
+			out = append(out, rec.Timestamp+1+uint64(rng.Int63n(int64(end-rec.Timestamp-2))))
+		}
+	}
+	return out
+}
+
